@@ -172,16 +172,16 @@ __CPROVER_ensures(!(begin <= &g_slots[g_k] && &g_slots[g_k] < end) ==> (g_fst ==
 /* focus slot inside [lo, hi), by byte offsets within g_slots (no pointer relation on a loop-havoced pointer) */
 #define F_IN(lo, hi) ((size_t)__CPROVER_POINTER_OFFSET(lo) <= g_k * sizeof(Slot_t) && g_k * sizeof(Slot_t) < (size_t)__CPROVER_POINTER_OFFSET(hi))
 //@loop Topic_publish_n_lambda_transient_topic_publish_n_1_op_call 1
-//@  VF_REBASE(iter, g_slots)
-//@  __CPROVER_assigns(iter, g_fst, g_status_stores, g_fences_after_store, g_loads_after_fence)
-//@  __CPROVER_loop_invariant(__CPROVER_same_object(iter, g_slots) && (size_t)__CPROVER_POINTER_OFFSET(iter) <= g_n * sizeof(Slot_t) && (size_t)__CPROVER_POINTER_OFFSET(iter) % sizeof(Slot_t) == 0 && begin <= iter && iter <= end)
-//@  __CPROVER_loop_invariant(g_status_stores == (F_IN(begin, iter) ? 1u : 0u) && g_fst == (F_IN(begin, iter) ? PUBLISHED : INITIAL) && g_fences_after_store == 0 && g_loads_after_fence == 0)
+//@  VF_REBASE(@l1@, g_slots)
+//@  __CPROVER_assigns(@l1@, g_fst, g_status_stores, g_fences_after_store, g_loads_after_fence)
+//@  __CPROVER_loop_invariant(__CPROVER_same_object(@l1@, g_slots) && (size_t)__CPROVER_POINTER_OFFSET(@l1@) <= g_n * sizeof(Slot_t) && (size_t)__CPROVER_POINTER_OFFSET(@l1@) % sizeof(Slot_t) == 0 && @p1@ <= @l1@ && @l1@ <= @p2@)
+//@  __CPROVER_loop_invariant(g_status_stores == (F_IN(@p1@, @l1@) ? 1u : 0u) && g_fst == (F_IN(@p1@, @l1@) ? PUBLISHED : INITIAL) && g_fences_after_store == 0 && g_loads_after_fence == 0)
 //@end
 //@loop Topic_publish_n_lambda_transient_topic_publish_n_1_op_call 2
-//@  VF_REBASE(iter_2, g_slots)
-//@  __CPROVER_assigns(iter_2, g_wakes, g_loads_after_fence, g_fmarked)
-//@  __CPROVER_loop_invariant(__CPROVER_same_object(iter_2, g_slots) && (size_t)__CPROVER_POINTER_OFFSET(iter_2) <= g_n * sizeof(Slot_t) && (size_t)__CPROVER_POINTER_OFFSET(iter_2) % sizeof(Slot_t) == 0 && begin <= iter_2 && iter_2 <= end)
-//@  __CPROVER_loop_invariant(F_IN(begin, iter_2) ? (g_loads_after_fence == (g_fences_after_store ? 1u : 0u) && g_wakes == (__CPROVER_loop_entry(g_fmarked) ? 1u : 0u)) : (g_wakes == 0 && g_loads_after_fence == 0 && g_fmarked == __CPROVER_loop_entry(g_fmarked)))
+//@  VF_REBASE(@l2@, g_slots)
+//@  __CPROVER_assigns(@l2@, g_wakes, g_loads_after_fence, g_fmarked)
+//@  __CPROVER_loop_invariant(__CPROVER_same_object(@l2@, g_slots) && (size_t)__CPROVER_POINTER_OFFSET(@l2@) <= g_n * sizeof(Slot_t) && (size_t)__CPROVER_POINTER_OFFSET(@l2@) % sizeof(Slot_t) == 0 && @p1@ <= @l2@ && @l2@ <= @p2@)
+//@  __CPROVER_loop_invariant(F_IN(@p1@, @l2@) ? (g_loads_after_fence == (g_fences_after_store ? 1u : 0u) && g_wakes == (__CPROVER_loop_entry(g_fmarked) ? 1u : 0u)) : (g_wakes == 0 && g_loads_after_fence == 0 && g_fmarked == __CPROVER_loop_entry(g_fmarked)))
 //@end
 
 /* publish_n<true>: the range is exactly [old counter, old counter + num), taken by one atomic add */
@@ -235,11 +235,11 @@ __CPROVER_ensures((!*self->cap_closed) ==> *self->cap_consumed - __CPROVER_old(*
 __CPROVER_ensures((!__CPROVER_old(*self->cap_closed) && *self->cap_closed && iter + (*self->cap_consumed - __CPROVER_old(*self->cap_consumed)) == &g_slots[g_k]) ==> g_fst == CLOSED)
 ;
 //@loop Topic_Consumer_consume_lambda_transient_topic_consume_1_op_call 1
-//@  VF_REBASE(iter, g_slots)
-//@  __CPROVER_assigns(iter, *self->cap_closed, *self->cap_consumed, g_fst, g_sleeps)
-//@  __CPROVER_loop_invariant(__CPROVER_same_object(iter, g_slots) && (size_t)__CPROVER_POINTER_OFFSET(iter) <= g_n * sizeof(Slot_t) && (size_t)__CPROVER_POINTER_OFFSET(iter) % sizeof(Slot_t) == 0 && __CPROVER_loop_entry(iter) <= iter && iter <= end)
-//@  __CPROVER_loop_invariant(!*self->cap_closed && *self->cap_consumed == __CPROVER_loop_entry(*self->cap_consumed) + (size_t)(iter - __CPROVER_loop_entry(iter)) && g_fst <= CLOSED)
-//@  __CPROVER_loop_invariant((__CPROVER_loop_entry(iter) <= &g_slots[g_k] && &g_slots[g_k] < iter) ==> g_fst == PUBLISHED)
+//@  VF_REBASE(@p1@, g_slots)
+//@  __CPROVER_assigns(@p1@, *self->cap_closed, *self->cap_consumed, g_fst, g_sleeps)
+//@  __CPROVER_loop_invariant(__CPROVER_same_object(@p1@, g_slots) && (size_t)__CPROVER_POINTER_OFFSET(@p1@) <= g_n * sizeof(Slot_t) && (size_t)__CPROVER_POINTER_OFFSET(@p1@) % sizeof(Slot_t) == 0 && __CPROVER_loop_entry(@p1@) <= @p1@ && @p1@ <= @p2@)
+//@  __CPROVER_loop_invariant(!*self->cap_closed && *self->cap_consumed == __CPROVER_loop_entry(*self->cap_consumed) + (size_t)(@p1@ - __CPROVER_loop_entry(@p1@)) && g_fst <= CLOSED)
+//@  __CPROVER_loop_invariant((__CPROVER_loop_entry(@p1@) <= &g_slots[g_k] && &g_slots[g_k] < @p1@) ==> g_fst == PUBLISHED)
 //@end
 
 /* ---- Consumer::consume(num): scans exactly [cursor, cursor + num), advances the cursor by the number of items the scan counted, and
